@@ -248,8 +248,9 @@ func eventVsState(ev sgbucket.FeedEvent, st St, collID uint32, keysOnly bool, is
 		bad("CollectionID %d, expected %d", ev.CollectionID, collID)
 	}
 	hasX := ev.DataType&sgbucket.FeedDataTypeXattr != 0
-	if hasX != (len(st.X) > 0) {
-		bad("datatype XATTR bit %v, document has %d xattrs", hasX, len(st.X))
+	if !hasX && len(st.X) > 0 && !keysOnly {
+		// (the bit may be set with an empty xattr section: the value is then still framed correctly)
+		bad("datatype XATTR bit not set, document has %d xattrs", len(st.X))
 	}
 	if isJSON != nil && st.Body != nil {
 		if got := ev.DataType&sgbucket.FeedDataTypeJSON != 0; got != *isJSON {
